@@ -57,8 +57,18 @@ def gen(rng, **force):
         'label': rng.choice(['', 'probe00', 'probe00', 'imec1']), 'factor': rng.choice([1, 2.5]),
         'target': 'fresh', 'params_py': rng.random() < 0.85, 'rate': rng.choice([128.0, 1024.0, 100.0, 30000.0, 25000.0]),
         'similar': rng.random() < 0.2, 'extra_dat_channels': rng.choice([0, 0, 1, 3]),
+        # stage 3: ids at the uint16 boundary ('edge': 65534 and 65535, inside the statement; 'over': 65535 and 65536,
+        # outside it), sparse template storage (outside it), convert(force=True)
+        'big_top': 'no', 'sparse': False, 'force': False,
     }
     o.update(force)
+    if o['big_top'] != 'no':
+        # every clusters.* table gets 65536 (65537) rows: keep everything else tiny, no raw data (the subset waveforms
+        # are drawn per cluster)
+        o.update(curated='ops', n_samples_wf=2, n_channels=min(o['n_channels'], 3), n_templates=2, n_spikes=min(o['n_spikes'], 9),
+                 raw=False, cluster_probes=False, cluster_shanks=False, big_ids=False, probes=o['probes'] if o['probes'] in ('none', 'const0', 'const1') else 'none')
+    if o['sparse']:
+        o.update(raw=False, big_ids=False, n_channels=max(o['n_channels'], 4), probes='none')
     nc, nt, ns = o['n_channels'], o['n_templates'], o['n_spikes']
     sem = D.gen_semantic(rng, n_spikes=ns, n_templates=nt, n_channels=nc, n_samples_wf=o['n_samples_wf'],
                          curated=False, amplitudes=True, shanks=o['shanks'], probes=False, raw=o['raw'],
@@ -99,6 +109,15 @@ def gen(rng, **force):
         top = max(sc)
         if o['n_samples_wf'] * nc <= 12:
             sc = [300 if c == top else c for c in sc]
+    if o['big_top'] != 'no':
+        top = 65535 if o['big_top'] == 'edge' else 65536
+        if sc is None or list(sc) == list(st):
+            sc = list(st)
+        ids = sorted(set(sc))
+        ren = {ids[-1]: top}
+        if len(ids) >= 2:
+            ren[ids[-2]] = top - 1
+        sc = [ren.get(c, c) for c in sc]
     sem['spike_clusters'] = sc
     # features
     f = sem['features']
@@ -126,6 +145,15 @@ def gen(rng, **force):
                   time_dtype=o['time_dtype'], cm_dtype=o['cm_dtype'], write_clusters=(o['curated'] == 'same_file'))
     files = ds['files']
     nclu = n_clusters_of(st, sc, nt)
+    if o['sparse']:
+        # sparse template storage: templates.npy holds k < n_channels columns, template_ind.npy names them
+        k = rng.randint(2, nc - 1)
+        t = files['templates.npy']
+        nsw = t['shape'][1]
+        rows = [t['data'][i * nc:(i + 1) * nc][:k] for i in range(nt * nsw)]
+        files['templates.npy'] = {'dtype': t['dtype'], 'shape': [nt, nsw, k], 'data': [v for r in rows for v in r]}
+        files['template_ind.npy'] = {'dtype': 'int32', 'shape': [nt, k],
+                                     'data': [c for _ in range(nt) for c in sorted(rng.sample(range(nc), k))]}
 
     def vec(dtype, data):
         return {'dtype': dtype, 'shape': [len(data), 1] if o['vec2d'] else [len(data)], 'data': list(data)}
@@ -161,8 +189,45 @@ def gen(rng, **force):
         text['cluster_group.tsv'] = 'cluster_id\tgroup\n0\tgood\n'
     if o['temp_wh']:
         ds['bin'] = {'temp_wh.dat': '0102' * rng.randint(1, 8)}
-    return {'ds': ds, 'label': o['label'], 'factor': o['factor'], 'target': o['target'],
+    return {'ds': ds, 'label': o['label'], 'factor': o['factor'], 'target': o['target'], 'force': bool(o['force']),
             'params_py': o['params_py'], 'opts': {k: o[k] for k in sorted(o)}}
+
+
+def gen_compress(rng, **force):
+    """A bare directory for compress_spikes_dtypes: at most one spikes.templates.* and one spikes.clusters.* array (the
+    function takes the FIRST glob match, in directory order), ids around the uint16 boundary, plus files the two
+    globs must not touch."""
+    o = {'label': rng.choice(['', 'probe00', 'templates', 'clusters', 'a.b']), 'ids': rng.choice(['small', 'edge', 'edge', 'over', 'neg']),
+         'missing': rng.choice(['none'] * 6 + ['templates', 'clusters']), 'vec2d': rng.random() < 0.3, 'decoys': rng.random() < 0.7}
+    o.update(force)
+    lab = ('.' + o['label']) if o['label'] else ''
+    n = rng.randint(2, 6)
+
+    def ids(dtype):
+        pool = {'small': [0, 1, 2, 255, 256, 300], 'edge': [0, 1, 32767, 32768, 65534, 65535],
+                'over': [0, 65535, 65536, 65537, 70000, 131071, 131072], 'neg': [0, 3, -1, -2, -65536]}[o['ids']]
+        if dtype == 'uint16' and o['ids'] in ('over', 'neg'):
+            dtype = 'int32'
+        if dtype.startswith('u'):
+            pool = [v for v in pool if v >= 0]
+        v = [rng.choice(pool) for _ in range(n)]
+        if o['ids'] == 'edge':
+            v[0], v[-1] = 65535, 65534
+        elif o['ids'] == 'over':
+            v[0], v[-1] = 65536, 65535
+        return {'dtype': dtype, 'shape': [n, 1] if o['vec2d'] else [n], 'data': v}
+    files = {}
+    if o['missing'] != 'templates':
+        files['spikes.templates%s.npy' % lab] = ids(rng.choice(['uint32', 'int32', 'int64', 'uint16', 'uint64']))
+    if o['missing'] != 'clusters':
+        files['spikes.clusters%s.npy' % lab] = ids(rng.choice(['uint32', 'int32', 'int64', 'uint64']))
+    if o['decoys']:
+        # names the globs 'spikes.templates.*npy' / 'spikes.clusters.*npy' do not match
+        files['spikes.templatesX%s.npy' % lab] = ids('int32')
+        files['clusters.templates%s.npy' % lab] = ids('int64')
+        files['spikes.amps%s.npy' % lab] = {'dtype': 'int32', 'shape': [n], 'data': [70000 + i for i in range(n)]}
+        files['templates.clusters.npy'] = ids('int32')
+    return {'files': files, 'opts': {k: o[k] for k in sorted(o)}}
 
 
 # ---- snapshots ---------------------------------------------------------------------------------------------
@@ -190,6 +255,26 @@ def snapshot(dirpath, load=True):
         else:
             other[name] = h
     return npy, other, hashes
+
+
+def coq_arr(ta):
+    """D.coq_arr, with the tables of tens of thousands of rows (cluster ids near 65535) printed run-length encoded:
+    (mkarr dt shape (rle [(n1, row1); (n2, row2); ...])), consecutive equal rows grouped (Corr.rle)."""
+    dt, shape, toks = ta
+    if len(toks) < 4096 or not shape or shape[0] == 0:
+        return D.coq_arr(ta)
+    rowlen = len(toks) // shape[0]
+    assert rowlen * shape[0] == len(toks)
+    blocks = []
+    for r in range(shape[0]):
+        row = toks[r * rowlen:(r + 1) * rowlen]
+        if blocks and blocks[-1][1] == row:
+            blocks[-1][0] += 1
+        else:
+            blocks.append([1, row])
+    return '(mkarr %s [%s] (rle [%s]))' % (
+        D.COQ_DT[dt], '; '.join(str(int(x)) for x in shape),
+        '; '.join('(%d, [%s])' % (k, '; '.join(D.coq_tok(t) for t in row)) for k, row in blocks))
 
 
 def parse_uuids(path):
